@@ -260,7 +260,7 @@ def build_tu(vu, work, canary=None):
                     e = X.extract_block(path, text, kv["start"], kv["end"], kv["head"],
                                         include_end=kv.get("include_end", "1") == "1", tail=kv.get("tail", ""), start_ordinal=int(kv["start_ordinal"]) if "start_ordinal" in kv else None)
                     e.qualname = "block:" + pos[0]
-                    for hname, htext, hline in X.file_static_helpers(text, e.raw_body):
+                    for hname, htext, hline in (X.file_static_helpers(text, e.raw_body) if kv.get("helpers", "1") == "1" else []):
                         e.text = '#line %d "%s"\n' % (hline, path) + htext + "\n" + e.text
                         e.rewrites.append("R5 file-static helper %s() called by the block included" % hname)
                 else:
